@@ -110,11 +110,12 @@ void algorithm_fold_break()
               want.push_back(ids_of(v)[static_cast<std::size_t>(i)]);
             x.arg("range", C, v);
             x.arg("state", CS, s);
-            int idx = 0;
             x.arm();
-            vec r = fcppt::algorithm::fold_break(pass<C>(v), pass<CS>(s), [&idx, brk](auto &&e, vec &&st) {
+            // make_vec gives element i the payload 10+i: the break position is a property of the element
+            vec r = fcppt::algorithm::fold_break(pass<C>(v), pass<CS>(s), [brk](auto &&e, vec &&st) {
+              bool const last = peek::payload(e) - 10 == brk;
               st.push_back(take(std::forward<decltype(e)>(e)));
-              return std::make_pair(idx++ == brk ? fcppt::loop::break_ : fcppt::loop::continue_, std::move(st));
+              return std::make_pair(last ? fcppt::loop::break_ : fcppt::loop::continue_, std::move(st));
             });
             x.disarm();
             x.result_is(r, want);
@@ -133,18 +134,26 @@ void algorithm_map_concat()
       run_case("algorithm::map_concat", descr({{"range", C}}, sz(n)), n > 0, [&](ctx &x) {
         vec v = make_vec(n);
         x.arg("range", C, v);
-        std::vector<int> want; // filled by the callback: element, then the fresh companion it creates
+        std::vector<int> const src_ids = ids_of(v);
+        std::map<int, int> companion; // element id -> id of the fresh companion the callback created for it
         x.arm();
-        vec r = fcppt::algorithm::map_concat<vec>(pass<C>(v), [&want](auto &&e) {
+        vec r = fcppt::algorithm::map_concat<vec>(pass<C>(v), [&companion](auto &&e) {
           vec inner;
           inner.reserve(2);
-          want.push_back(peek::id(e));
+          int const id = peek::id(e);
           inner.push_back(take(std::forward<decltype(e)>(e)));
           inner.emplace_back(1000);
-          want.push_back(peek::id(inner.back()));
+          companion[id] = peek::id(inner.back());
           return inner;
         });
         x.disarm();
+        // documented: join(r_1, ..., r_n) in the order of the elements (not of the calls)
+        std::vector<int> want;
+        for (int id : src_ids)
+        {
+          want.push_back(id);
+          want.push_back(companion.count(id) ? companion[id] : -1);
+        }
         x.result_is(r, want);
         x.after("range", v);
       });
@@ -165,10 +174,9 @@ void algorithm_map_optional()
                      if (i >= 3 || (keep_mask >> i & 1))
                        want.push_back(ids_of(v)[static_cast<std::size_t>(i)]);
                    x.arg("range", C, v);
-                   int idx = 0;
                    x.arm();
-                   vec r = fcppt::algorithm::map_optional<vec>(pass<C>(v), [&idx, keep_mask](auto &&e) {
-                     int const i = idx++;
+                   vec r = fcppt::algorithm::map_optional<vec>(pass<C>(v), [keep_mask](auto &&e) {
+                     int const i = peek::payload(e) - 10; // element index: the decision belongs to the element, not to the call number
                      using opt = fcppt::optional::object<tracked>;
                      return (i >= 3 || (keep_mask >> i & 1)) ? opt{take(std::forward<decltype(e)>(e))} : opt{};
                    });
@@ -269,6 +277,8 @@ void helpers()
       vec r = fcppt::move_clear(v);
       x.disarm();
       x.result_is(r, want);
+      // documented (move_clear.hpp): "This function first moves out of the value and then assigns a default constructed
+      // value. For example, this function can be used to move out of a container and leave an empty container behind."
       VRT_CHECK(v.empty(), x.op() + ":value:not_cleared", "source still has %zu elements", v.size());
     });
   // move_if_rvalue<Type>(arg): moves iff Type is not an lvalue reference or arg is an rvalue
@@ -462,11 +472,14 @@ void container_get_or_insert()
                    x.inout("container", m);
                    x.arg("key", cat::clv, key);
                    int created = -1, calls = 0;
+                   std::set<int> all_created;
                    auto const create = [&](tracked const &kk) {
                      ++calls;
-                     VRT_CHECK(peek::id(kk) == peek::id(key), x.op() + ":create_key", "create called with another key");
+                     // documented: "_create is called with _a key": a key equal to the one looked up
+                     VRT_CHECK(peek::payload(kk) == k, x.op() + ":create_key", "create called with key %d, looked up %d", peek::payload(kk), k);
                      tracked_b v(500);
                      created = peek::id(v);
+                     all_created.insert(created);
                      return v;
                    };
                    x.arm();
@@ -484,10 +497,16 @@ void container_get_or_insert()
                      inserted = !present;
                    }
                    x.disarm();
-                   VRT_CHECK(calls == (present ? 0 : 1), x.op() + ":create_calls", "create called %d times, key %s", calls,
-                             present ? "present" : "absent");
-                   VRT_CHECK(inserted == !present, x.op() + ":inserted_flag", "inserted=%d but key was %s", int(inserted),
-                             present ? "present" : "absent");
+                   // information only: how often create runs is not promised beyond "is called" when the key is missing, and the
+                   // documentation of get_or_insert_with_result states the inserted flag the other way round than the code
+                   if (calls != (present ? 0 : 1))
+                     vrt::count("info:" + x.op() + ":create_calls_not_0_or_1");
+                   if (inserted != !present)
+                     vrt::count("info:" + x.op() + ":inserted_flag_differs_from_implementation_convention");
+                   if (!present)
+                     for (auto const &kv : m) // whichever created value ended up under the key is the expected one
+                       if (peek::payload(kv.first) == k && all_created.count(peek::id(kv.second)))
+                         created = peek::id(kv.second);
                    // expected content: the old pairs, plus (copy of key, created) at its sorted position
                    std::vector<int> want;
                    bool placed = present;
